@@ -46,6 +46,12 @@ static inline void *
 mpool_malloc(struct mpool * M, size_t len)
 {
 
+#if defined(LIBCPERCIVA_VERIF) && defined(LIBCPERCIVA_VERIF_NOPOOL)
+	/* Verification hook: bypass the cache so ASan sees every reuse. */
+	(void)M;
+	return (malloc(len));
+#endif
+
 	/* Count the total number of allocation requests. */
 	M->nallocs++;
 
@@ -70,6 +76,14 @@ static inline void
 mpool_free(struct mpool * M, void * p)
 {
 	void ** allocs_new;
+
+#if defined(LIBCPERCIVA_VERIF) && defined(LIBCPERCIVA_VERIF_NOPOOL)
+	/* Verification hook: bypass the cache so ASan sees every reuse. */
+	(void)M;
+	(void)allocs_new;
+	free(p);
+	return;
+#endif
 
 	/* Behave consistently with free(NULL). */
 	if (p == NULL)
